@@ -7,8 +7,11 @@
 (*                                                                                                 *)
 (* Modelled fragment: modules (module-level USE statements, module variables, contained            *)
 (* subroutines), free subroutines, USE with and without ONLY list inside procedures, CALL          *)
-(* statements (incl. self recursion).  NOT modelled (never generated): derived types, type-bound   *)
-(* procedures, interfaces, functions / inline calls, internal procedures, renaming imports,       *)
+(* statements (incl. self recursion), generic INTERFACEs of a module over procedures of that module  *)
+(* (an InterfaceItem `mod#intf` between the caller and the specific procedures; referenced only      *)
+(* through a USE..ONLY inside the calling procedure).  NOT modelled (never generated): derived types, *)
+(* type-bound procedures, interface blocks inside procedures, functions / inline calls, internal     *)
+(* procedures, renaming imports,                                                                     *)
 (* external (missing) modules or procedures, non-self recursion cycles.                           *)
 EXTENDS Naturals, Sequences, FiniteSets, TLC
 
@@ -37,6 +40,7 @@ SelectSeqP(s, T(_)) == SelectSeq(s, T)
 
 ModItem(n) == [kind |-> "mod", scope |-> "", local |-> n]
 ProcItem(mn, n) == [kind |-> "proc", scope |-> mn, local |-> n]
+IntfItem(mn, n) == [kind |-> "intf", scope |-> mn, local |-> n]
 Full(it) == IF it.kind = "mod" THEN it.local ELSE it.scope \o "#" \o it.local
 
 Mods(P) == Range(P.mods)
@@ -45,11 +49,15 @@ ModNames(P) == {m.name : m \in Mods(P)}
 ModRec(P, n) == CHOOSE m \in Mods(P) : m.name = n
 ItemOfProc(pr) == ProcItem(pr.mod, pr.name)
 ProcRecOf(P, it) == CHOOSE pr \in Procs(P) : pr.mod = it.scope /\ pr.name = it.local
+IfaceNames(P, mn) == {i.name : i \in Range(ModRec(P, mn).ifaces)}
+IfaceRec(P, it) == CHOOSE i \in Range(ModRec(P, it.scope).ifaces) : i.name = it.local
 AllItems(P) == {ModItem(m.name) : m \in Mods(P)} \cup {ItemOfProc(pr) : pr \in Procs(P)}
+               \cup UNION {{IntfItem(m.name, i.name) : i \in Range(m.ifaces)} : m \in Mods(P)}
 ItemExists(P, it) == it \in AllItems(P)
 
 \* file that contains the definition of an item
-FileOf(P, it) == IF it.kind = "mod" THEN ModRec(P, it.local).file ELSE ProcRecOf(P, it).file
+FileOf(P, it) == IF it.kind = "mod" THEN ModRec(P, it.local).file
+                 ELSE IF it.kind = "intf" THEN ModRec(P, it.scope).file ELSE ProcRecOf(P, it).file
 
 ---------------------------------------------------------------------------------------------
 (* Name resolution of a CALL, following Fortran scoping (and Appendix A (iv)):                    *)
@@ -67,7 +75,9 @@ IsSibling(P, pr, c) == pr.mod # "" /\ \E q \in Procs(P) : q.mod = pr.mod /\ q.na
 
 Resolve(P, pr, c) ==
   IF IsSibling(P, pr, c) THEN ProcItem(pr.mod, c)
-  ELSE IF QualMods(P, pr, c) # {} THEN ProcItem(CHOOSE m \in QualMods(P, pr, c) : TRUE, c)
+  ELSE IF QualMods(P, pr, c) # {}
+       THEN LET m == CHOOSE x \in QualMods(P, pr, c) : TRUE
+            IN IF m \in ModNames(P) /\ c \in IfaceNames(P, m) THEN IntfItem(m, c) ELSE ProcItem(m, c)
   ELSE IF UnqualMods(P, pr, c) # {} THEN ProcItem(CHOOSE m \in UnqualMods(P, pr, c) : TRUE, c)
   ELSE ProcItem("", c)
 
@@ -82,6 +92,7 @@ ImportLegal(P, im, owner) ==
   /\ im.mod \in ModNames(P) /\ im.mod # owner
   /\ \A s \in Range(im.only) :
        \/ s \in Range(ModRec(P, im.mod).vars)
+       \/ s \in IfaceNames(P, im.mod)
        \/ \E q \in Procs(P) : q.mod = im.mod /\ q.name = s
 
 ---------------------------------------------------------------------------------------------
@@ -139,9 +150,12 @@ DisableKeys(C, p) == Range(C.disable) \cup ItemConf(C, p).disable
 ImportDepSeq(P, im, K) ==
   IF Hits(P, K, {im.mod}, TRUE) THEN <<>>
   ELSE IF im.only = <<>> THEN <<ModItem(im.mod)>>
-  ELSE IF \E s \in Range(im.only) : s \in Range(ModRec(P, im.mod).vars) /\ ~Hits(P, K, VarNames(im.mod, s), TRUE)
-       THEN <<ModItem(im.mod)>>
-  ELSE <<>>
+  ELSE LET m == ModRec(P, im.mod)
+           alive(s) == ~Hits(P, K, VarNames(im.mod, s), TRUE)
+           modDep == IF \E s \in Range(im.only) : s \in Range(m.vars) /\ alive(s) THEN <<ModItem(im.mod)>> ELSE <<>>
+           \* imported generic interfaces are definition items of the module: one dependency each
+           isIntf(s) == s \in IfaceNames(P, im.mod) /\ alive(s)
+       IN modDep \o [i \in DOMAIN SelectSeq(im.only, isIntf) |-> IntfItem(im.mod, SelectSeq(im.only, isIntf)[i])]
 
 ImportsDepSeq(P, imps, K) == FlattenSeq([i \in DOMAIN imps |-> ImportDepSeq(P, imps[i], K)])
 
@@ -153,6 +167,10 @@ CallDepSeq(P, pr, K) ==
 \* dependencies of `it` in source order (USE statements first, then calls), pruned with K, no duplicates
 DepSeq(P, it, K) ==
   IF it.kind = "mod" THEN Dedup(ImportsDepSeq(P, ModRec(P, it.local).imports, K))
+  ELSE IF it.kind = "intf"     \* a generic interface depends on the procedures it names
+  THEN LET ps == IfaceRec(P, it).procs
+           keep(d) == ~Hits(P, K, NamesOf(d, TRUE), TRUE)
+       IN Dedup(SelectSeq([i \in DOMAIN ps |-> ProcItem(it.scope, ps[i])], keep))
   ELSE LET pr == ProcRecOf(P, it)
        IN Dedup(ImportsDepSeq(P, pr.imports, K) \o CallDepSeq(P, pr, K))
 
@@ -175,6 +193,8 @@ ImportTargets(P, im, K) ==
 TargetsOf(P, C, it) ==
   LET K == PruneKeys(C, it)
   IN IF it.kind = "mod" THEN UNION {ImportTargets(P, im, K) : im \in Range(ModRec(P, it.local).imports)}
+     ELSE IF it.kind = "intf"
+     THEN {p \in Range(IfaceRec(P, it).procs) : ~Hits(P, K, NamesOf(ProcItem(it.scope, p), TRUE), TRUE)}
      ELSE LET pr == ProcRecOf(P, it)
           IN UNION {ImportTargets(P, im, K) : im \in Range(pr.imports)}
              \cup {c \in Range(pr.calls) : ~Hits(P, K, NamesOf(Resolve(P, pr, c), TRUE), TRUE)}
@@ -243,7 +263,7 @@ FileEdges(P, E) == {<<FileOf(P, e[1]), FileOf(P, e[2])>> : e \in {d \in E : File
 RECURSIVE ExportedNames(_, _, _)
 ExportedNames(P, mn, d) ==
   LET m == ModRec(P, mn)
-      own == Range(m.vars) \cup {pr.name : pr \in {q \in Procs(P) : q.mod = mn}}
+      own == Range(m.vars) \cup {pr.name : pr \in {q \in Procs(P) : q.mod = mn}} \cup {i.name : i \in Range(m.ifaces)}
   IN IF d = 0 THEN own
      ELSE own \cup UNION {IF im.only = <<>> THEN (IF im.mod \in ModNames(P) THEN ExportedNames(P, im.mod, d - 1) ELSE {})
                                             ELSE Range(im.only) : im \in Range(m.imports)}
@@ -254,8 +274,24 @@ BroughtIn(P, imps) ==
 \* (e.g. module m1 with `use m2` must not define a procedure that m2 also defines)
 NoUseClash(P) ==
   /\ \A m \in Mods(P) :
-        (Range(m.vars) \cup {pr.name : pr \in {q \in Procs(P) : q.mod = m.name}}) \cap BroughtIn(P, m.imports) = {}
+        (Range(m.vars) \cup {pr.name : pr \in {q \in Procs(P) : q.mod = m.name}} \cup {i.name : i \in Range(m.ifaces)})
+           \cap BroughtIn(P, m.imports) = {}
   /\ \A pr \in Procs(P) : pr.name \notin BroughtIn(P, pr.imports)
+
+\* generic interfaces: distinct names, name procedures of their own module, and are referenced only through a
+\* USE..ONLY inside the calling procedure (host-level or unqualified access to an interface is outside the fragment)
+IfacesLegal(P) ==
+  /\ \A m \in Mods(P) :
+        /\ \A i, j \in DOMAIN m.ifaces : m.ifaces[i].name = m.ifaces[j].name => i = j
+        /\ \A i \in Range(m.ifaces) :
+              /\ i.procs # <<>>
+              /\ \A p \in Range(i.procs) : \E q \in Procs(P) : q.mod = m.name /\ q.name = p
+              /\ i.name \notin Range(m.vars) /\ i.name \notin ModNames(P)
+              /\ \A q \in Procs(P) : q.name # i.name
+        /\ \A im \in Range(m.imports) : im.mod \in ModNames(P) => Range(im.only) \cap IfaceNames(P, im.mod) = {}
+  /\ \A pr \in Procs(P) : \A c \in Range(pr.calls) :
+        LET allIf == UNION {IfaceNames(P, mn) : mn \in ModNames(P)}
+        IN c \in allIf => \E im \in Range(pr.imports) : c \in Range(im.only) /\ im.mod \in ModNames(P) /\ c \in IfaceNames(P, im.mod) /\ im.mod # pr.mod
 
 LegalProject(P) ==
   /\ \A m1, m2 \in Mods(P) : m1.name = m2.name => m1 = m2
@@ -266,6 +302,7 @@ LegalProject(P) ==
   /\ \A pr \in Procs(P) : \A im \in Range(pr.imports) : ImportLegal(P, im, pr.mod)
   /\ \A pr \in Procs(P) : \A c \in Range(pr.calls) : CallLegal(P, pr, c)
   /\ NoUseClash(P)
+  /\ IfacesLegal(P)
 
 \* the scheduler traverses topologically: item graph (apart from self recursion) and the induced file
 \* graph must be acyclic (a documented limitation, not a property)
